@@ -335,8 +335,8 @@ impl<'a> WorldLoader<'a> {
       "redirect" => Ok(Some(LoadResponse::Redirect { specifier: self.world.spec_of(&resp.to) })),
       "mod" => {
         let fin = match &resp.fin {
-          Some(f) => self.world.spec_of(f),
-          None => specifier.clone(),
+          Some(f) if f != "-" => self.world.spec_of(f),
+          _ => specifier.clone(),
         };
         Ok(Some(LoadResponse::Module {
           content: Arc::from(self.world.render(id).into_bytes()),
@@ -367,10 +367,16 @@ impl Loader for WorldLoader<'_> {
       was_dyn_root: options.was_dynamic_root,
       cached_only: false,
     });
+    // divergence detector: no world of the instances needs more than a few hundred loads
+    if self.log.borrow().len() > LOAD_BUDGET {
+      panic!("load budget exceeded: the build does not terminate");
+    }
     let r = self.respond(specifier);
     Box::pin(async move { r })
   }
 }
+
+pub const LOAD_BUDGET: usize = 3000;
 
 
 /// NpmResolver of a world: requirements listed in `failing` fail; with `dep_fail` the dependency-graph resolution
